@@ -1100,6 +1100,14 @@ func c12GenSchedWheel(r *verifh.Rng) verifh.Section {
 			release()
 		case x < 66 && len(armed) > 0:
 			release()
+		case x < 69:
+			// the next callback of the key panics (with an error / another value): the other callbacks of its tick or
+			// Drain are still delivered
+			ops = append(ops, fmt.Sprintf("boom %d %s", k, r.PickS("err", "str")))
+			set(k, 2)
+			if r.Bool() {
+				set((k+1)%nkeys, 2)
+			}
 		case x < 70:
 			ops = append(ops, "drain")
 		default:
@@ -1118,7 +1126,7 @@ func c12GenSchedWheel(r *verifh.Rng) verifh.Section {
 // Get moving a key to the front of the LRU list, every outcome of Take's fetch function.
 func c12GenSchedCache(r *verifh.Rng) verifh.Section {
 	const sec = 1000000000
-	limit := r.Pick(0, 1, 1, 2, 2, 3, -1)
+	limit := r.Pick(0, 1, 1, 2, 2, 3, -1, 1, 2)
 	expire := r.Pick(1, 2, 3, 5) * sec
 	if r.Chance(1, 12) {
 		expire = r.Pick(0, -sec, sec/2)
@@ -1168,13 +1176,28 @@ func c12GenSchedCache(r *verifh.Rng) verifh.Section {
 	for i := r.Pick(1, 6); i > 0; i-- {
 		ops = append(ops, "tick")
 	}
-	return verifh.Section{Cfg: fmt.Sprintf("n=300 interval=%d mode=sched client=cache limit=%d expire=%d pri=%s", sec, limit, expire, c12Pri(r)), Ops: ops}
+	opt := fmt.Sprintf(" limit=%d", limit)
+	if limit == 0 && r.Bool() {
+		opt = "" // no WithLimit option at all
+	}
+	if r.Chance(1, 3) {
+		if r.Bool() {
+			opt += " name=c12" // WithName, before or after WithLimit makes no difference: options are applied in order
+		} else {
+			opt = " name=c12" + opt
+		}
+	}
+	return verifh.Section{Cfg: fmt.Sprintf("n=300 interval=%d mode=sched client=cache%s expire=%d pri=%s", sec, opt, expire, c12Pri(r)), Ops: ops}
 }
 
 func c12GenSched(r *verifh.Rng) []verifh.Section {
 	var secs []verifh.Section
-	for i := verifh.Scale(60, 700); i > 0; i-- {
-		secs = append(secs, c12GenSchedWheel(r), c12GenSchedCache(r))
+	// every NewCache leaves its statLoop goroutine behind and the goroutine dump grows with it: fewer cache sections
+	for i := verifh.Scale(60, 500); i > 0; i-- {
+		secs = append(secs, c12GenSchedWheel(r))
+	}
+	for i := verifh.Scale(60, 250); i > 0; i-- {
+		secs = append(secs, c12GenSchedCache(r))
 	}
 	return secs
 }
@@ -1193,6 +1216,7 @@ func c12GenSched(r *verifh.Rng) []verifh.Section {
 //
 //	client=wheel  set/move/remove/drain through the public API, tick, and
 //	              hold <k>      the next callback (execute or Drain) of key k blocks until `release <k>`
+//	              boom <k> err|str  the next callback of key k panics with an error value / a string
 //	              release <k>   while a callback is blocked nothing that was handed to a callback is printed
 //	                            (`held`); everything is printed by the operation after which none is blocked
 //	client=cache  cset/cput/cdel/cget/ctake/tick on the real Cache built with WithLimit(limit) (limit=0: no option)
@@ -1283,6 +1307,7 @@ type c12HoldSink struct {
 	holds   map[string]chan struct{} // armed, not reached yet
 	holding map[string]chan struct{} // a callback is blocked on it
 	active  int                      // callbacks that have been entered and have not returned
+	booms   map[string]string        // key -> the next callback of the key panics: "err" with an error value, "str" with a string
 	after   func(k, v any)
 }
 
@@ -1296,6 +1321,8 @@ func (s *c12HoldSink) exec(k, v any) {
 		delete(s.holds, ks)
 		s.holding[ks] = ch
 	}
+	boom := s.booms[ks]
+	delete(s.booms, ks)
 	s.mu.Unlock()
 	if ch != nil {
 		<-ch
@@ -1307,6 +1334,12 @@ func (s *c12HoldSink) exec(k, v any) {
 	}()
 	if s.after != nil {
 		s.after(k, v)
+	}
+	switch boom {
+	case "err":
+		panic(fmt.Errorf("c12: callback of key %s panics with an error value", ks))
+	case "str":
+		panic("c12: callback of key " + ks + " panics with a string")
 	}
 }
 
@@ -1429,13 +1462,16 @@ func (*c12TypedErr) Error() string { return "typed" }
 func TestVerifC12Sched(t *testing.T) {
 	secs := verifh.Sections(c12GenSched)
 	verifh.Run(t, secs, func(cfg verifh.Cfg) (func(op []string) string, func()) {
-		sink := &c12HoldSink{holds: map[string]chan struct{}{}, holding: map[string]chan struct{}{}}
+		sink := &c12HoldSink{holds: map[string]chan struct{}{}, holding: map[string]chan struct{}{}, booms: map[string]string{}}
 		s := &c12Sched{sink: sink, pri: strings.Split(cfg.Str("pri", "set,move,remove,drain"), ",")}
 		var c *Cache
 		if cfg.Str("client", "wheel") == "cache" {
 			var opts []CacheOption
-			if l := cfg.Int("limit", 0); l != 0 {
-				opts = append(opts, WithLimit(l))
+			if _, ok := cfg["limit"]; ok {
+				opts = append(opts, WithLimit(cfg.Int("limit", 0))) // also 0 and negative limits: WithLimit ignores them
+			}
+			if name := cfg.Str("name", ""); name != "" {
+				opts = append(opts, WithName(name))
 			}
 			var err error
 			c, err = NewCache(time.Duration(verifh.Atoi64(cfg.Str("expire", "1000000000"))), opts...)
@@ -1479,6 +1515,11 @@ func TestVerifC12Sched(t *testing.T) {
 				if sink.holds[op[1]] == nil {
 					sink.holds[op[1]] = make(chan struct{})
 				}
+				sink.mu.Unlock()
+				return "armed"
+			case op[0] == "boom" && len(op) == 3 && (op[2] == "err" || op[2] == "str"):
+				sink.mu.Lock()
+				sink.booms[op[1]] = op[2]
 				sink.mu.Unlock()
 				return "armed"
 			case op[0] == "release" && len(op) == 2:
